@@ -626,8 +626,9 @@ class C19(Prop):
         request carries one, else the pool-level one."""
         T, C, R = cfg
         if outcome == "TypeError" and any(c[0] == "U" and is_num(c[1]) for c in (cfg, pool_cfg)):
-            # classifier of the one known root cause: min(number, _DEFAULT_TIMEOUT) in connect_timeout,
-            # reached through the governing Timeout or through the pool's own (in `_new_conn`)
+            # classifier of a repaired defect (known_findings/C19.json, status "fixed": reported as a
+            # VIOLATION if it ever returns): min(number, _DEFAULT_TIMEOUT) in connect_timeout, reached
+            # through the governing Timeout or through the pool's own (in `_new_conn`)
             self.fail(res, case, "total-default-sentinel-with-numeric-connect:TypeError",
                       f"request governed by Timeout(total, connect, read)={tuple(cfg)} on a pool with "
                       f"{tuple(pool_cfg)} raised TypeError")
